@@ -105,7 +105,8 @@ class Check:
             print(f"  rule {o['rule']}: {self.rule_text.get(o['rule'], '')}")
             print(f"  at {o['where']}  construct {o['construct']}  [{o['key']}]")
             print(f"  {o['detail']}")
-        self.write_evidence(len(violations), len(known_hits))
+        if self.replay_filter is None:          # a replay re-evaluates one instance; it is not a coverage run
+            self.write_evidence(len(violations), len(known_hits))
         ok_n = sum(1 for o in self.obligations if o["ok"])
         print(f"{self.pid} [{self.tier}] obligations={len(self.obligations)} discharged={ok_n} "
               f"violations={len(violations)} known={len(known_hits)} "
